@@ -278,7 +278,8 @@ def plant_container_level(doc, dia, r):
                             ((("dup_header_scalar", 41, variant(scalars[0], r)),) if scalars else ()):
                         hdr = names[:pos] + [("mark", newname)] + names[pos:]
                         pk = [p[:pos] + [S("dropped", "sq")] + p[pos:] for p in packets]
-                        yield ("%s/%s/col%d" % (label, tag, pos), with_elems(doc, path, elems[:k] + [("loop", hdr, pk)] + elems[k + 1:]), doc, code, {}, None)
+                        yield ("%s/%s/col%d" % (label, tag, pos), with_elems(doc, path, elems[:k] + [("loop", hdr, pk)] + elems[k + 1:]), doc, code,
+                               {"die": truncate_before(doc, path, k)}, None)     # the report is made while the header is read: no loop yet
                 # truncated final packet: filled out with unknown values
                 if len(names) > 1 and packets:
                     for keep in range(1, len(names)):
